@@ -1,7 +1,7 @@
 #!/bin/sh
 # usage: baseline.sh <worktree>  - pinned suite (guard off) in that tree vs BASELINE stable_pass
 WT=${1:-/repo}
-OUT=/tmp/mut/baseline_run.$$.txt
+mkdir -p /tmp/mut; OUT=/tmp/mut/baseline_run.$$.txt
 cd $WT && CARGO_NET_OFFLINE=true cargo test --workspace --no-fail-fast --offline 2>&1 | grep -E "^test " > $OUT
 python3 - $OUT <<'PY'
 import json,re,sys
